@@ -14,7 +14,7 @@ type monC02 struct {
 	dead bool
 }
 
-func newMonC02() *monC02 { return &monC02{} }
+func newMonC02() *monC02       { return &monC02{} }
 func (m *monC02) Name() string { return "C02" }
 
 func (m *monC02) OnStep(r *Runner, st *Step) {
